@@ -49,7 +49,8 @@ type frame struct {
 	caller           *frame
 	fn               *ssa.Function
 	block, prevBlock *ssa.BasicBlock
-	env              map[ssa.Value]value
+	env              []value
+	info             *fnInfo
 	locals           []value
 	defers           *deferred
 	result           value
@@ -71,8 +72,8 @@ func (fr *frame) get(key ssa.Value) value {
 	case *ssa.Global:
 		return fr.in.global(key)
 	}
-	if r, ok := fr.env[key]; ok {
-		return r
+	if i, ok := fr.info.idx[key]; ok {
+		return fr.env[i]
 	}
 	panic(fmt.Sprintf("get: no value for %T: %v", key, key.Name()))
 }
@@ -143,35 +144,35 @@ func (in *Interp) visitInstr(fr *frame, instr ssa.Instruction) continuation {
 		// no-op
 
 	case *ssa.UnOp:
-		fr.env[instr] = in.unop(fr, instr, fr.get(instr.X))
+		fr.env[fr.info.idx[instr]] = in.unop(fr, instr, fr.get(instr.X))
 
 	case *ssa.BinOp:
-		fr.env[instr] = in.binop(instr.Op, instr.X.Type(), fr.get(instr.X), fr.get(instr.Y))
+		fr.env[fr.info.idx[instr]] = in.binop(instr.Op, instr.X.Type(), fr.get(instr.X), fr.get(instr.Y))
 
 	case *ssa.Call:
 		fn, args := in.prepareCall(fr, &instr.Call)
-		fr.env[instr] = in.call(fr, instr.Pos(), fn, args)
+		fr.env[fr.info.idx[instr]] = in.call(fr, instr.Pos(), fn, args)
 
 	case *ssa.ChangeInterface:
-		fr.env[instr] = fr.get(instr.X)
+		fr.env[fr.info.idx[instr]] = fr.get(instr.X)
 
 	case *ssa.ChangeType:
-		fr.env[instr] = fr.get(instr.X)
+		fr.env[fr.info.idx[instr]] = fr.get(instr.X)
 
 	case *ssa.Convert:
-		fr.env[instr] = in.conv(instr.Type(), instr.X.Type(), fr.get(instr.X))
+		fr.env[fr.info.idx[instr]] = in.conv(instr.Type(), instr.X.Type(), fr.get(instr.X))
 
 	case *ssa.SliceToArrayPointer:
 		in.unsupported("SliceToArrayPointer")
 
 	case *ssa.MakeInterface:
-		fr.env[instr] = iface{t: instr.X.Type(), v: fr.get(instr.X)}
+		fr.env[fr.info.idx[instr]] = iface{t: instr.X.Type(), v: fr.get(instr.X)}
 
 	case *ssa.Extract:
-		fr.env[instr] = fr.get(instr.Tuple).(tuple)[instr.Index]
+		fr.env[fr.info.idx[instr]] = fr.get(instr.Tuple).(tuple)[instr.Index]
 
 	case *ssa.Slice:
-		fr.env[instr] = in.slice(fr.get(instr.X), fr.get(instr.Low), fr.get(instr.High), fr.get(instr.Max))
+		fr.env[fr.info.idx[instr]] = in.slice(fr.get(instr.X), fr.get(instr.Low), fr.get(instr.High), fr.get(instr.Max))
 
 	case *ssa.Return:
 		switch len(instr.Results) {
@@ -246,15 +247,15 @@ func (in *Interp) visitInstr(fr *frame, instr ssa.Instruction) continuation {
 		in.spawn(fr, instr.Pos(), fn, args)
 
 	case *ssa.MakeChan:
-		fr.env[instr] = in.newChan(int(in.asInt64(fr.get(instr.Size))), instr.Type().Underlying().(*types.Chan).Elem())
+		fr.env[fr.info.idx[instr]] = in.newChan(int(in.asInt64(fr.get(instr.Size))), instr.Type().Underlying().(*types.Chan).Elem())
 
 	case *ssa.Alloc:
 		var addr *value
 		if instr.Heap {
 			addr = new(value)
-			fr.env[instr] = addr
+			fr.env[fr.info.idx[instr]] = addr
 		} else {
-			addr = fr.env[instr].(*value)
+			addr = fr.env[fr.info.idx[instr]].(*value)
 		}
 		*addr = zero(mustDeref(instr.Type()))
 
@@ -265,16 +266,16 @@ func (in *Interp) visitInstr(fr *frame, instr ssa.Instruction) continuation {
 		for i := range slice {
 			slice[i] = zero(tElt)
 		}
-		fr.env[instr] = slice[:in.asInt64(fr.get(instr.Len))]
+		fr.env[fr.info.idx[instr]] = slice[:in.asInt64(fr.get(instr.Len))]
 
 	case *ssa.MakeMap:
-		fr.env[instr] = newSmap(instr.Type().Underlying().(*types.Map))
+		fr.env[fr.info.idx[instr]] = newSmap(instr.Type().Underlying().(*types.Map))
 
 	case *ssa.Range:
-		fr.env[instr] = in.rangeIter(fr.get(instr.X))
+		fr.env[fr.info.idx[instr]] = in.rangeIter(fr.get(instr.X))
 
 	case *ssa.Next:
-		fr.env[instr] = fr.get(instr.Iter).(iter).next()
+		fr.env[fr.info.idx[instr]] = fr.get(instr.Iter).(iter).next()
 
 	case *ssa.FieldAddr:
 		p := derefPtr(fr.get(instr.X), "field address in "+fr.fn.String())
@@ -282,28 +283,28 @@ func (in *Interp) visitInstr(fr *frame, instr ssa.Instruction) continuation {
 		if !ok {
 			in.unsupported("FieldAddr on %T in %s", *p, fr.fn)
 		}
-		fr.env[instr] = &s[instr.Field]
+		fr.env[fr.info.idx[instr]] = &s[instr.Field]
 
 	case *ssa.Field:
 		s, ok := fr.get(instr.X).(structure)
 		if !ok {
 			in.unsupported("Field on %T in %s", fr.get(instr.X), fr.fn)
 		}
-		fr.env[instr] = s[instr.Field]
+		fr.env[fr.info.idx[instr]] = s[instr.Field]
 
 	case *ssa.IndexAddr:
 		x := fr.get(instr.X)
 		switch x := x.(type) {
 		case []value:
 			i := in.index(fr.get(instr.Index), len(x))
-			fr.env[instr] = &x[i]
+			fr.env[fr.info.idx[instr]] = &x[i]
 		case *value: // *array
 			if x == nil {
 				tpanic("nil pointer dereference (array index)")
 			}
 			a := (*x).(array)
 			i := in.index(fr.get(instr.Index), len(a))
-			fr.env[instr] = &a[i]
+			fr.env[fr.info.idx[instr]] = &a[i]
 		default:
 			panic(fmt.Sprintf("unexpected x type in IndexAddr: %T", x))
 		}
@@ -312,9 +313,9 @@ func (in *Interp) visitInstr(fr *frame, instr ssa.Instruction) continuation {
 		x := fr.get(instr.X)
 		switch x := x.(type) {
 		case array:
-			fr.env[instr] = x[in.index(fr.get(instr.Index), len(x))]
+			fr.env[fr.info.idx[instr]] = x[in.index(fr.get(instr.Index), len(x))]
 		case string:
-			fr.env[instr] = x[in.index(fr.get(instr.Index), len(x))]
+			fr.env[fr.info.idx[instr]] = x[in.index(fr.get(instr.Index), len(x))]
 		case *Sym:
 			in.unsupported("index of symbolic string in %s", fr.fn)
 		default:
@@ -322,7 +323,7 @@ func (in *Interp) visitInstr(fr *frame, instr ssa.Instruction) continuation {
 		}
 
 	case *ssa.Lookup:
-		fr.env[instr] = in.lookup(fr, instr, fr.get(instr.X), fr.get(instr.Index))
+		fr.env[fr.info.idx[instr]] = in.lookup(fr, instr, fr.get(instr.X), fr.get(instr.Index))
 
 	case *ssa.MapUpdate:
 		m, ok := fr.get(instr.Map).(*smap)
@@ -336,20 +337,20 @@ func (in *Interp) visitInstr(fr *frame, instr ssa.Instruction) continuation {
 		in.mapUpdate(m, fr.get(instr.Key), fr.get(instr.Value))
 
 	case *ssa.TypeAssert:
-		fr.env[instr] = in.typeAssert(instr, fr.get(instr.X).(iface))
+		fr.env[fr.info.idx[instr]] = in.typeAssert(instr, fr.get(instr.X).(iface))
 
 	case *ssa.MakeClosure:
 		var bindings []value
 		for _, binding := range instr.Bindings {
 			bindings = append(bindings, fr.get(binding))
 		}
-		fr.env[instr] = &closure{instr.Fn.(*ssa.Function), bindings}
+		fr.env[fr.info.idx[instr]] = &closure{instr.Fn.(*ssa.Function), bindings}
 
 	case *ssa.Phi:
 		panic("unreachable: phi")
 
 	case *ssa.Select:
-		fr.env[instr] = in.selectStmt(fr.g, instr, fr)
+		fr.env[fr.info.idx[instr]] = in.selectStmt(fr.g, instr, fr)
 
 	default:
 		panic(fmt.Sprintf("unexpected instruction: %T", instr))
@@ -463,18 +464,19 @@ func (in *Interp) callSSA(caller *frame, callpos token.Pos, fn *ssa.Function, ar
 	defer func() { in.depth-- }()
 	in.w.fnsHit[fn]++
 
-	fr.env = make(map[ssa.Value]value)
+	fr.info = in.w.fnInfoOf(fn)
+	fr.env = make([]value, fr.info.n)
 	fr.block = fn.Blocks[0]
 	fr.locals = make([]value, len(fn.Locals))
 	for i, l := range fn.Locals {
 		fr.locals[i] = zero(mustDeref(l.Type()))
-		fr.env[l] = &fr.locals[i]
+		fr.env[fr.info.idx[l]] = &fr.locals[i]
 	}
 	for i, p := range fn.Params {
-		fr.env[p] = args[i]
+		fr.env[fr.info.idx[p]] = args[i]
 	}
 	for i, fv := range fn.FreeVars {
-		fr.env[fv] = env[i]
+		fr.env[fr.info.idx[fv]] = env[i]
 	}
 	for fr.block != nil {
 		in.runFrame(fr)
@@ -546,7 +548,7 @@ func executePhis(fr *frame) []ssa.Instruction {
 			fr.phitemps = append(fr.phitemps, fr.get(phi.Edges[predIndex]))
 		}
 		for i, phi := range phis {
-			fr.env[phi.(*ssa.Phi)] = fr.phitemps[i]
+			fr.env[fr.info.idx[phi.(*ssa.Phi)]] = fr.phitemps[i]
 		}
 	}
 	return nonPhis
@@ -575,4 +577,42 @@ func toStringish(v value) value {
 		return s
 	}
 	return toString(v)
+}
+
+// fnInfo numbers the SSA values of a function so that frames can use a slice
+// instead of a map for their environment.
+type fnInfo struct {
+	idx map[ssa.Value]int32
+	n   int
+}
+
+func (w *Worker) fnInfoOf(fn *ssa.Function) *fnInfo {
+	if fi, ok := w.fnInfo[fn]; ok {
+		return fi
+	}
+	fi := &fnInfo{idx: map[ssa.Value]int32{}}
+	add := func(v ssa.Value) {
+		if _, ok := fi.idx[v]; !ok {
+			fi.idx[v] = int32(fi.n)
+			fi.n++
+		}
+	}
+	for _, p := range fn.Params {
+		add(p)
+	}
+	for _, fv := range fn.FreeVars {
+		add(fv)
+	}
+	for _, l := range fn.Locals {
+		add(l)
+	}
+	for _, b := range fn.Blocks {
+		for _, instr := range b.Instrs {
+			if v, ok := instr.(ssa.Value); ok {
+				add(v)
+			}
+		}
+	}
+	w.fnInfo[fn] = fi
+	return fi
 }
